@@ -22,7 +22,7 @@ RULE = ("round-trip part: keys of every type (oct 0-96 octets, RSA 1024-4096 fro
         "which enforces RFC 7518/8037 member formats), given members returned unchanged, signatures/ECDH interoperate between original "
         "and re-imported key. malformed part: one mutation of a valid JWK (delete a required member; retype any member to each other JSON "
         "type; use/key_ops contradiction; undecodable base64url; length = 1 mod 4; any proper subset of the private RSA members other than d alone; x/y/d replaced by another value of "
-        "the right length; oth present) must be refused. non-trivial: keys with a short coordinate / leading zero, password-protected "
+        "the right length; a number given as the empty string; oth present) must be refused. Raw oct secrets may begin / end with blanks or line breaks (octets like any other). non-trivial: keys with a short coordinate / leading zero, password-protected "
         "exports, each mutation kind; distinct = (kty/crv, key class, entry form, export form, params shape) or (mutation, member, kty).")
 ASSUMPTIONS = ["benign acceptances outside the statement are DONT_CARE: empty kid/alg strings, key_ops [], a kty label the typed importer overrides, "
                "EC/OKP d replaced by another valid scalar TOGETHER with matching x (that is simply another key)",
